@@ -238,3 +238,153 @@ Proof.
   - symmetry. apply views_eqb_eq. exact H2.
   - apply nest_sound. apply swf_wf. exact H1.
 Qed.
+
+
+(* ---------- the update statement ---------- *)
+Lemma leaf_term_eval_shift t tm ps : leaf_term_eval (t :: tm) (map S ps) = leaf_term_eval tm ps.
+Proof.
+  unfold leaf_term_eval. induction ps as [|i ps IH]; [reflexivity|].
+  cbn [map fold_right]. rewrite IH. reflexivity.
+Qed.
+
+Lemma leaf_term_eval_all tm : leaf_term_eval tm (seq 0 (List.length tm)) = term_leaf tm.
+Proof.
+  induction tm as [|t tm IH]; [reflexivity|].
+  cbn [List.length seq]. rewrite <- seq_shift.
+  change (leaf_term_eval (t :: tm) (0%nat :: map S (seq 0 (List.length tm)))) with
+         (leaf_val (nth 0 (t :: tm) dummy_t) * leaf_term_eval (t :: tm) (map S (seq 0 (List.length tm)))).
+  rewrite leaf_term_eval_shift, IH. cbn [nth term_leaf fold_right]. unfold leaf_val.
+  destruct (cur t); reflexivity.
+Qed.
+
+Lemma leaf_okb_eval : forall lv tms, leaf_okb lv (map (@List.length _) tms) = true ->
+  leaf_eval lv tms = fold_right (fun tm acc => term_leaf tm + acc) 0 tms.
+Proof.
+  induction lv as [|ps lv IH]; intros [|tm tms] H; cbn [map leaf_okb] in H; try discriminate; [reflexivity|].
+  apply andb_true_iff in H as [H1 H2]. apply nats_eqb_eq in H1. subst ps.
+  cbn [leaf_eval fold_right]. rewrite (IH tms H2), leaf_term_eval_all. reflexivity.
+Qed.
+
+Lemma length_step_term r c tm : List.length (step_term r c tm) = List.length tm.
+Proof. unfold step_term. destruct (term_alive r c tm); apply map_length. Qed.
+
+Lemma lengths_step r c (tms : list term) : map (@List.length _) (map (step_term r c) tms) = map (@List.length _) tms.
+Proof. rewrite map_map. apply map_ext. intros tm. apply length_step_term. Qed.
+
+(* with an accepted update expression the nest the text writes IS the nest of the soundness theorem *)
+Theorem run_lv_eq : forall lv L tms, leaf_okb lv (map (@List.length _) tms) = true -> run_lv lv L tms = run L tms.
+Proof.
+  intros lv L. induction L as [|r L IH]; intros tms H; cbn [run_lv run].
+  - rewrite (leaf_okb_eval lv tms H). reflexivity.
+  - apply flat_map_ext. intros c. rewrite IH; [reflexivity|]. rewrite lengths_step. exact H.
+Qed.
+
+(* ---------- `<<=` versus `+=` ---------- *)
+(* keys of the contributions: every key lists the loop ranks in loop order, and no key occurs twice *)
+Lemma run_keys_ranks : forall L tms qv, In qv (run L tms) -> map fst (fst qv) = L.
+Proof.
+  induction L as [|r L IH]; intros tms qv H; cbn [run] in H.
+  - destruct H as [<-|[]]. reflexivity.
+  - apply in_flat_map in H as [c [_ H]]. apply in_map_iff in H as [qv' [<- H]]. cbn [fst map]. f_equal. eapply IH; eassumption.
+Qed.
+
+Lemma NoDup_app_intro {A} (a b : list A) : NoDup a -> NoDup b -> (forall x, In x a -> In x b -> False) -> NoDup (a ++ b).
+Proof.
+  intros Ha Hb Hd. induction Ha as [|x a Hx Ha IH]; [exact Hb|]. cbn. constructor.
+  - intros Hin. apply in_app_or in Hin as [Hin|Hin]; [contradiction|]. apply (Hd x); [left; reflexivity|exact Hin].
+  - apply IH. intros y Hy1 Hy2. apply (Hd y); [right; exact Hy1|exact Hy2].
+Qed.
+
+(* two contributions with the same rank list that both match an output point fixing all those ranks have equal coordinates *)
+Lemma matches_out_all_eq : forall out o (a b : list (rank * coord)),
+  map fst a = map fst b -> (forall r, In r (map fst a) -> rmem r out = true) ->
+  matches_out out o a = true -> matches_out out o b = true -> a = b.
+Proof.
+  intros out o a. induction a as [|[r c] a IH]; intros [|[r' c'] b] Hk Hall Ha Hb; cbn [map] in Hk; try discriminate; [reflexivity|].
+  injection Hk as -> Hk. cbn [matches_out forallb fst snd] in Ha, Hb.
+  apply andb_true_iff in Ha as [Ha1 Ha2]. apply andb_true_iff in Hb as [Hb1 Hb2].
+  rewrite (Hall r' (or_introl eq_refl)) in Ha1, Hb1. cbn in Ha1, Hb1.
+  apply Z.eqb_eq in Ha1, Hb1. f_equal; [congruence|].
+  apply IH; try assumption. intros r0 H0. apply Hall. right. exact H0.
+Qed.
+
+Lemma run_keys_nodup : forall L tms, NoDup (map fst (run L tms)).
+Proof.
+  induction L as [|r L IH]; intros tms; cbn [run].
+  - cbn. constructor; [intros []|constructor].
+  - assert (Hnd : NoDup (visited r tms)) by apply NoDup_nodup.
+    induction Hnd as [|c cs Hnotin Hnd IHcs]; [constructor|].
+    cbn [flat_map]. rewrite map_app. apply NoDup_app_intro.
+    + rewrite map_map. cbn [fst].
+      assert (Hinj : forall l, NoDup l -> NoDup (map (fun q : list (rank * coord) => (r, c) :: q) l)).
+      { intros l Hl. induction Hl as [|x l Hx Hl IHl]; [constructor|]. cbn. constructor; [|exact IHl].
+        intros Hin. apply in_map_iff in Hin as [y [Ey Hy]]. injection Ey as ->. contradiction. }
+      rewrite <- (map_map fst (fun q => (r, c) :: q)). apply Hinj. apply IH.
+    + exact IHcs.
+    + intros k Hk1 Hk2. apply in_map_iff in Hk1 as [qv1 [<- H1]]. apply in_map_iff in H1 as [qv1' [<- H1]].
+      apply in_map_iff in Hk2 as [qv2 [E2 H2]]. apply in_flat_map in H2 as [c2 [Hc2 H2]].
+      apply in_map_iff in H2 as [qv2' [<- H2]]. cbn [fst] in E2. injection E2 as E2 _. subst c2. contradiction.
+Qed.
+
+Lemma out_sum_none : forall out o cs, existsb (fun qv => matches_out out o (fst qv)) cs = false -> out_sum_at out o cs = 0.
+Proof.
+  intros out o cs. induction cs as [|qv cs IH]; intros H; [reflexivity|].
+  cbn [existsb] in H. apply orb_false_iff in H as [H1 H2]. cbn [out_sum_at]. rewrite H1. apply IH. exact H2.
+Qed.
+
+(* if every loop rank is an output rank, every output point receives at most one contribution: assigning is accumulating *)
+Lemma assign_eq_acc_keys : forall L out o cs, (forall r, In r L -> rmem r out = true) ->
+  (forall qv, In qv cs -> map fst (fst qv) = L) -> NoDup (map fst cs) ->
+  out_assign_at out o cs = out_sum_at out o cs.
+Proof.
+  intros L out o cs Hall. induction cs as [|qv cs IH]; intros Hk Hnd; [reflexivity|].
+  cbn [map] in Hnd. apply NoDup_cons_iff in Hnd as [Hnotin Hnd].
+  cbn [out_assign_at out_sum_at].
+  specialize (IH (fun qv' H => Hk qv' (or_intror H)) Hnd).
+  destruct (matches_out out o (fst qv)) eqn:Hm; cbn [andb]; [|exact IH].
+  destruct (existsb (fun qv' => matches_out out o (fst qv')) cs) eqn:Hex.
+  - exfalso. apply existsb_exists in Hex as [qv' [Hin Hm']]. apply Hnotin.
+    assert (E : fst qv = fst qv').
+    { apply (matches_out_all_eq out o); try assumption.
+      - rewrite (Hk qv (or_introl eq_refl)), (Hk qv' (or_intror Hin)). reflexivity.
+      - intros r Hr. apply Hall. rewrite <- (Hk qv (or_introl eq_refl)). exact Hr. }
+    rewrite E. apply in_map. exact Hin.
+  - cbn [negb]. rewrite (out_sum_none out o cs Hex). lia.
+Qed.
+
+Lemma rmem_forallb L out : forallb (fun r => rmem r out) L = true -> forall r, In r L -> rmem r out = true.
+Proof. intros H r Hr. rewrite forallb_forall in H. apply H. exact Hr. Qed.
+
+(* the operator the text uses leaves in every output point what accumulation would leave *)
+Theorem nest_result_acc : forall acc L out tms o, op_okb acc L out = true ->
+  nest_result acc out o (run L tms) = out_sum_at out o (run L tms).
+Proof.
+  intros acc L out tms o H. unfold nest_result. destruct acc; [reflexivity|].
+  cbn in H. apply (assign_eq_acc_keys L); [apply rmem_forallb; exact H| |apply run_keys_nodup].
+  intros qv Hin. eapply run_keys_ranks. exact Hin.
+Qed.
+
+(* certified validation of a whole emitted sum-of-products program, update statement included *)
+Theorem nest_full_okb_sound : forall L tms views acc lv out,
+  nest_full_okb L (map (map rem) tms) views acc lv out = true ->
+  views = expected_views L (map (map rem) tms) /\
+  (forall o, nest_result acc out o (run_lv lv L tms) = out_sum_at out o (run L tms)) /\
+  (forall p, sum_at p (run L tms) = body_den tms p).
+Proof.
+  intros L tms views acc lv out H. unfold nest_full_okb in H.
+  apply andb_true_iff in H as [H H3]. apply andb_true_iff in H as [H1 H2].
+  destruct (nest_okb_sound L tms views H1) as [Hv Hs]. split; [exact Hv|]. split; [|exact Hs].
+  intros o. rewrite map_map in H2.
+  assert (H2' : leaf_okb lv (map (@List.length _) tms) = true).
+  { rewrite <- H2. f_equal. apply map_ext. intros tm. symmetry. apply map_length. }
+  rewrite (run_lv_eq lv L tms H2'). apply nest_result_acc. exact H3.
+Qed.
+
+(* non-vacuity: a two-term sum with a reduction, a scalar and an accumulate; and an assignment without reduction *)
+Example nest_full_okb_example :
+  nest_full_okb ["M"; "K"]%string [[["M"; "K"]; ["K"]]; [["M"; "K"]; []]]%string
+                [("M"%string, [[0%nat]; [0%nat]]); ("K"%string, [[0%nat; 1%nat]; [0%nat]])] true [[0%nat; 1%nat]; [0%nat; 1%nat]] ["M"]%string = true
+  /\ nest_full_okb ["M"]%string [[["M"]; []]]%string [("M"%string, [[0%nat]])] false [[0%nat; 1%nat]] ["M"]%string = true
+  /\ nest_full_okb ["M"; "K"]%string [[["M"; "K"]; ["K"]]]%string
+                [("M"%string, [[0%nat]]); ("K"%string, [[0%nat; 1%nat]])] false [[0%nat; 1%nat]] ["M"]%string = false.
+Proof. repeat split; vm_compute; reflexivity. Qed.
